@@ -409,6 +409,7 @@ def main():
 
     positions = list(range(0, 257)) if thorough else [0, 1, 2, 12, 13, 14, 15, 100, 255, 256]
     step_bad = []
+    abstraction_lost = []
     nsteps = 0
     for i0 in positions:
         for skip0 in (True, False):
@@ -494,10 +495,20 @@ def main():
                 if not final and skip0 and not isinstance(skip2, bool):
                     return ('unknown', 'symbolic skip flag')
                 return ('proved', '')
-            for r in eng.explore(run):
-                nsteps += 1
-                if r[0] != 'proved':
-                    step_bad.append((i0, skip0, r))
+            try:
+                for r in eng.explore(run):
+                    nsteps += 1
+                    if r[0] != 'proved':
+                        step_bad.append((i0, skip0, r))
+            except (TypeError, AttributeError, KeyError, Unsupported) as ex:
+                # the routine left the abstraction (e.g. it took a point apart into coordinates): nothing is claimed for
+                # this step, the concrete replay below still runs
+                abstraction_lost.append('position %d: %s: %s' % (i0, type(ex).__name__, str(ex)[:120]))
+                break
+        if abstraction_lost:
+            break
+    if abstraction_lost:
+        unknown.append('mixed step not executable over the abstract group: ' + abstraction_lost[0])
     for msg in viol:
         add('ScalarMixedMult:selector', msg)
     ck.absorb(eng)
@@ -517,7 +528,10 @@ def main():
         o1 = e.call_outcome(INT + '.ScalarMixedMult_Unsafe', [e.new_slice([1] * 32), P_, e.new_slice([1] * 31)])
         o2 = e.call_outcome(INT + '.ScalarMixedMult_Unsafe', [e.new_slice([1] * 31), P_, e.new_slice([1] * 32)])
         return o1.kind, o2.kind
-    ck.extra['short_scalar_behaviour'] = list(eng.explore(run_short)[0])
+    try:
+        ck.extra['short_scalar_behaviour'] = list(eng.explore(run_short)[0])
+    except (TypeError, AttributeError, KeyError, Unsupported) as ex:
+        ck.extra['short_scalar_behaviour'] = 'not executable over the abstract group: %s' % str(ex)[:100]
     ck.absorb(eng)
     secs = time.time() - t0
     ck.bounds.append('fixed-base multiplication: all four comb parameter sets, every 32-byte scalar (one symbolic run each, no data-dependent branch); variable-point multiplication: scalar lengths %s, all contents; double-scalar routine: one loop iteration from positions %s with both scalars, the accumulator and the recoding digit symbolic' % (lens, 'all 0..256' if thorough else positions))
@@ -584,6 +598,12 @@ func TestVerifReplay(t *testing.T) {
 		if err != nil || !bytes.Equal(p.Bytes(), c.kP) { t.Fatalf("case %%d: ScalarMult differs from [k]P", i) }
 		m, err := ScalarMixedMult_Unsafe(c.k, P, c.s)
 		if err != nil || !bytes.Equal(m.Bytes(), c.mixed) { t.Fatalf("case %%d: ScalarMixedMult_Unsafe differs from [k]G+[s]P", i) }
+		// the same point in other projective representatives (Z != 1) and negated
+		dbl := NewSM2Point().Double(P); half := NewSM2Point().Add(dbl, NewSM2Point().Negate(P))
+		mz, err := ScalarMixedMult_Unsafe(c.k, half, c.s)
+		if err != nil || !bytes.Equal(mz.Bytes(), c.mixed) { t.Fatalf("case %%d: ScalarMixedMult_Unsafe with P given as a projective representative with Z != 1 differs from [k]G+[s]P", i) }
+		pz, err := ScalarMult(half, c.k)
+		if err != nil || !bytes.Equal(pz.Bytes(), c.kP) { t.Fatalf("case %%d: ScalarMult with P given with Z != 1 differs from [k]P", i) }
 		g := NewSM2Generator()
 		m2, _ := ScalarMixedMult_Unsafe(c.k, g, c.s)
 		w2, _ := ScalarBaseMult(c.k); w3, _ := ScalarMult(g, c.s); w2.Add(w2, w3)
